@@ -3,11 +3,15 @@ package main
 import (
 	"crypto"
 	"crypto/ecdsa"
+	"crypto/ed25519"
+	"crypto/sha256"
 	"encoding/asn1"
 	"encoding/base64"
+	"encoding/binary"
 	"fmt"
 	"io"
 	"math/big"
+	"verif/harness/ref/canon"
 
 	"github.com/miekg/dns"
 	"verif/harness/fw"
@@ -196,6 +200,72 @@ func c10KeyStructSpace(c *fw.Ctx) {
 					}
 					r.Count("sequences", 64)
 				})
+			}
+		})
+}
+
+// c10KeytagEdgeSpace: two Ed25519 keys derived from fixed seeds (found by a search over seeds SHA-256("verif-c10-keytag-" ‖ i)):
+// #9339, whose RFC 4034 appendix B word sum carries a second time when the carry is added back (tag 5), and #22949,
+// whose tag is 0. The key tag is what ties an RRSIG to its key before any cryptography; both shapes are about one
+// key in several thousand and none of the fixed key files has them.
+func c10KeytagEdgeSpace(c *fw.Ctx) {
+	type ek struct {
+		idx  uint64
+		what string
+	}
+	keys := []ek{{9339, "second-carry"}, {22949, "tag-0"}}
+	c.Space("keytag-edge", "two Ed25519 keys from fixed seeds — one whose appendix-B sum carries twice (tag 5), one whose tag is 0 — × RRsets {MX, A}: KeyTag() equals the reference tag; Sign succeeds and sets that tag, its output verifies under the reference and under Verify; a reference-made RRSIG carrying the real tag verifies, one made over tag+1 (and tag−1) is refused; non-trivial: all", true,
+		func(emit func(func(*fw.R))) {
+			for _, e := range keys {
+				for _, tn := range []string{"MX", "A"} {
+					e, tn := e, tn
+					emit(func(r *fw.R) {
+						r.Nontrivial()
+						var b [8]byte
+						binary.BigEndian.PutUint64(b[:], e.idx)
+						seed := sha256.Sum256(append([]byte("verif-c10-keytag-"), b[:]...))
+						priv := ed25519.NewKeyFromSeed(seed[:])
+						dk := &dns.DNSKEY{Hdr: dns.RR_Header{Name: "example.", Rrtype: dns.TypeDNSKEY, Class: dns.ClassINET, Ttl: 3600}, Flags: 257, Protocol: 3, Algorithm: dns.ED25519,
+							PublicKey: base64.StdEncoding.EncodeToString(priv.Public().(ed25519.PublicKey))}
+						ref, err := c10RefKey(dk)
+						if err != nil {
+							panic(err)
+						}
+						k := &c10Key{Name: "ed25519-seed-" + e.what, DNSKEY: dk, Priv: priv, Ref: ref, RefPriv: priv, KeyText: dk.String()}
+						want := canon.KeyTag(ref.RData())
+						if (e.what == "tag-0") != (want == 0) || (e.what == "second-carry" && want != 5) {
+							panic(fmt.Sprintf("harness: seed %d no longer gives the %s key (reference tag %d)", e.idx, e.what, want))
+						}
+						if got := dk.KeyTag(); got != want {
+							r.Fail("keytag-edge/keytag/"+e.what, "KeyTag() = %d, RFC 4034 appendix B gives %d; DNSKEY %s", got, want, dk.String())
+						}
+						t := c10Types[c10TypeIdx(tn)[0]]
+						sym := c10Symbols(t, c10Owners[0], c10Variants[0])
+						rrset := []dns.RR{sym[1], sym[0]}
+						lsig := &dns.RRSIG{KeyTag: want, SignerName: "example.", Algorithm: dns.ED25519, Inception: c10Inception, Expiration: c10Expiration}
+						if err := c10Sign(lsig, priv, rrset); err != nil {
+							r.Fail("keytag-edge/sign-error/"+e.what, "Sign with the %s key (tag %d) failed: %v; %s", e.what, want, err, c10Desc(k, lsig, rrset))
+						} else {
+							if lsig.KeyTag != want {
+								r.Fail("keytag-edge/sign-tag/"+e.what, "Sign left Key Tag %d in the RRSIG, the key's tag is %d", lsig.KeyTag, want)
+							}
+							c10Judge(r, "keytag-edge/"+e.what+"/library-signed", "signature by Sign", k, dk, lsig, rrset)
+							if e2, _ := c10Verify(lsig, dk, rrset); e2 != nil {
+								r.Fail("keytag-edge/verify-rejects-own/"+e.what, "Verify rejects Sign's output: %v; %s", e2, c10Desc(k, lsig, rrset))
+							}
+						}
+						for _, dlt := range []int{0, 1, -1} {
+							tag := uint16(int(want) + dlt)
+							rsig, err := c10RefSign(priv, &dns.RRSIG{Hdr: dns.RR_Header{Name: rrset[0].Header().Name, Rrtype: dns.TypeRRSIG, Class: dns.ClassINET, Ttl: 300},
+								TypeCovered: rrset[0].Header().Rrtype, Algorithm: dns.ED25519, Labels: uint8(dns.CountLabel(rrset[0].Header().Name)), OrigTtl: rrset[0].Header().Ttl,
+								Inception: c10Inception, Expiration: c10Expiration, KeyTag: tag, SignerName: "example."}, rrset, canon.Reading{})
+							if err != nil {
+								panic(err)
+							}
+							c10Judge(r, fmt.Sprintf("keytag-edge/%s/reference-signed-tag%+d", e.what, dlt), fmt.Sprintf("reference signature over Key Tag %d (the key's tag is %d)", tag, want), k, dk, rsig, rrset)
+						}
+					})
+				}
 			}
 		})
 }
